@@ -46,8 +46,12 @@ RULES = {
     "initializers too; collected one nesting level up (main graph and functions only), the interface names of control-flow "
     "subgraphs are unknown and an inlined or renamed value can take the name of a subgraph's input or initializer: two "
     "values under one name in one scope, a model the checker rejects or that binds consumers to the wrong value",
+    "R11": "the empty name is an absence: where a pass or rewriting helper carries the name of one value over to another only if the "
+    "source has one (`new.name = old.name if <old has a name> else new.name`, or the store under an `if`), the test is the "
+    "truthiness of the name - `is not None` lets the empty name of an omitted optional output through, and the value it "
+    "overwrites may have consumers inside the rewritten region (an inlined call `'', y = F(x)` blanks the producer that y reads)",
 }
-FLOORS = {"R1": 5, "R2": 6, "R3": 8, "R4": 6, "R5": 8, "R6": 2, "R7": 1, "R8": 10, "R9": 1, "R10": 3}
+FLOORS = {"R1": 5, "R2": 6, "R3": 8, "R4": 6, "R5": 8, "R6": 2, "R7": 1, "R8": 10, "R9": 1, "R10": 3, "R11": 1}
 EXPLANATION = (
     "Four structural necessary conditions of semantic preservation that the pass mechanisms rely on: guarded removal, "
     "interface-size preservation (call-site scan with receiver typing), data-dependence of the equivalence keys on all "
@@ -747,7 +751,35 @@ def _over_nodes(e, site) -> bool:
     return False
 
 
+def rule_r11(ctx):
+    n = 0
+    for f in _pass_funcs(ctx) + [g for g in ctx.repo.module("onnx_ir._convenience").all_funcs]:
+        if isinstance(f.node, ast.Lambda):
+            continue
+        for a in (x for x in own_nodes(f.node) if isinstance(x, ast.Assign) and len(x.targets) == 1 and isinstance(x.targets[0], ast.Attribute) and x.targets[0].attr == "name"):
+            v = a.value
+            src, test = None, None
+            if isinstance(v, ast.IfExp) and isinstance(v.body, ast.Attribute) and v.body.attr == "name":
+                src, test = v.body, v.test
+            elif isinstance(v, ast.Attribute) and v.attr == "name":
+                par = getattr(a, "_parent", None)
+                if isinstance(par, ast.If) and a in par.body and norm(v) in norm(par.test):
+                    src, test = v, par.test
+            if src is None or norm(src) not in norm(test):
+                continue
+            n += 1
+            by_none = any(isinstance(c, ast.Compare) and norm(c.left) == norm(src) and any(isinstance(o, (ast.Is, ast.IsNot)) for o in c.ops)
+                          and isinstance(c.comparators[0], ast.Constant) and c.comparators[0].value is None for c in ast.walk(test))
+            ctx.check("R11", f"{f.local}: `{norm(a)[:70]}` carries a name over only if it is non-empty", not by_none, f, a,
+                      f"`{norm(a)}` takes `{norm(src)}` whenever it is not None: the empty name - an omitted optional output - is carried over too and "
+                      "blanks a value that consumers inside the rewritten region still read (the checker rejects the model, the result changes)",
+                      how="presence test of the source name in a conditional name transfer is its truthiness",
+                      construct=f"empty name carried over by {f.local}")
+    ctx.require(n >= 1, "no conditional name transfer found in the passes / rewriting helpers")
+
+
 def run(ctx):
+    rule_r11(ctx)
     rule_r10(ctx)
     rule_r8(ctx)
     rule_r9(ctx)
